@@ -161,5 +161,6 @@ def check(repo, rep, tier):
         rp.r_callbacks(repo, rep, 'R12.2')
     rp.r_retrieve_tree(repo, rep, 'R12.2', {'labels', 'shape'})
     r_same_result(repo, rep)
+    rp.r_tree_factories(repo, rep, 'R12.3')
     r_label_recovery(repo, rep)
     rep.floor('agenda push sites', len(m.sites), 5)
